@@ -424,7 +424,7 @@ def valgrind_batch(prop, tier, base, count, results_out):
         # only runs sequentially and that ASan cannot fault: reads of never-written stack slots), then the ordinary swarm
         forced = [{"TBFSIM_FORCE_ORDERING": "periodic", "TBFSIM_FORCE_EXECUTOR": ex_, "TBFSIM_FORCE_TOP": str(k)} for ex_ in ("seq", "seqtsm") for k in (-1, 0, 1, 2, 3)]
         futs = [ex.submit(valgrind_one, prop, tier, base, 1000 + i, f) for i, f in enumerate(forced)]
-        futs += [ex.submit(valgrind_one, prop, tier, base, i) for i in range(2, count + 2)]   # indices 0 and 1 are the large scale scenarios
+        futs += [ex.submit(valgrind_one, prop, tier, base, i) for i in range(6, count + 6)]   # indices 0..5 are the large scale scenarios
         for fi, f in enumerate(futs):
             errs, runs = f.result()
             force = forced[fi] if fi < len(forced) else None
